@@ -91,8 +91,6 @@ func (ctx *Context) Parse(value string) error {
 	if ctx.Config.ParseExprLimit != 0 {
 		p.maxExprCnt = ctx.Config.ParseExprLimit
 	}
-	// 设置错误消息语言
-	SetParseErrorLanguage(ctx.Config.ParseErrorLanguage)
 	_, err := func() (val any, err error) {
 		defer func() {
 			// 超出 ParseExprLimit 时解析器以 panic 终止，这里转为普通错误
@@ -107,6 +105,8 @@ func (ctx *Context) Parse(value string) error {
 		return p.parse(nil)
 	}()
 	if err != nil {
+		// 错误消息语言绑定在错误对象上，而不是写全局变量(否则并发的VM会互相影响)
+		bindParseErrorLanguage(err, ctx.Config.ParseErrorLanguage)
 		ctx.Error = err
 		return err
 	}
